@@ -49,6 +49,15 @@ ASSIGNMENTS = {
     "case-twins": [("r", "r.AB", (1, 0)), ("r", "r.AC", (1, 0)), ("r", "r.Ab", (1, 0)), ("r", "r.Z", (1, 0))],
     "case-twins-versions": [("r", "r.AB", (1, 0)), ("r", "r.AB", (0, 1)), ("r", "r.Ab", (1, 0)), ("r", "r.Z", (1, 0))],
 }
+ASSIGNMENTS.update({
+    # namespaces that differ only by letter case, each holding a type of the same short name and version
+    "case-twin-namespaces": [("r", "r.s.AB", (1, 0)), ("r", "r.S.AB", (1, 0)), ("r", "r.s.Z", (1, 0))],
+    # a definition whose short name equals / is a prefix of one of its own namespace components
+    "name-in-namespace": [("r", "r.box.box", (1, 0)), ("r", "r.box.Item", (1, 0)), ("r", "r.Item", (1, 0))],
+    "name-prefix-of-namespace": [("r", "r.boxes.box", (1, 0)), ("r", "r.boxes.Item", (1, 0)), ("r", "r.Item", (1, 0))],
+    "deep-name-in-namespace": [("r", "r.crate.deep.crate", (1, 0)), ("r", "r.crate.deep.Item", (1, 0)), ("r", "r.crate.Item", (1, 0)), ("r", "r.Item", (1, 0))],
+})
+FROM_NODE = {"case-twins": 3, "case-twins-versions": 3, "case-twin-namespaces": 2, "name-in-namespace": 0, "name-prefix-of-namespace": 0, "deep-name-in-namespace": 0}
 LOOKUPS = ["q", "q2/r", "q3/r"]
 
 
@@ -91,8 +100,8 @@ def all_edge_sets(n):
 
 def plan(tier):
     shards = []
-    for a in ("case-twins", "case-twins-versions"):
-        shards.append({"kind": "graphs-from-last", "assignment": a, "n": 4})
+    for a in FROM_NODE:
+        shards.append({"kind": "graphs-from-last", "assignment": a, "n": len(ASSIGNMENTS[a])})
     full = ("names", "versions", "cross-root", "twins") if tier == "quick" else ("names", "versions", "cross-root", "nested-versions", "twins", "twins-lookup")
     for a in full:
         for p in range(16):
@@ -108,7 +117,8 @@ def plan(tier):
 def cases(shard, tier):
     if shard["kind"] == "graphs-from-last":
         n = shard["n"]
-        outs = [(n - 1, b) for b in range(n - 1)]
+        src = FROM_NODE[shard["assignment"]]
+        outs = [(src, b) for b in range(n) if b != src]
         for mask in range(1, 1 << len(outs)):
             edges = [outs[i] for i in range(len(outs)) if mask >> i & 1]
             for sps in itertools.product(("abs", "rel", "miscase"), repeat=len(edges)):
